@@ -325,10 +325,11 @@ func TestC06(t *testing.T) {
 		errPingID := uint64(0x7700)
 		afterErrPing, afterTime, timeEvents := false, false, 0
 		afterHello := false
+		chains := 0
 		nPackets := c.Int("packets", 1, 40)
 		for k := 0; k < nPackets; k++ {
 			if c.Chance("direction.out", 1, 3) {
-				key, may, tup := c06Outbound(c, vn, V, st.Router.Isolate, isFriend, friendIDs, knownID, P, tracked)
+				key, may, tup := c06Outbound(c, vn, V, st.Router.Isolate, isFriend, friendIDs, knownID, P, tracked, nil)
 				if key != "" {
 					// (a local packet that fails the address checks leaves no entry behind)
 					if _, seen := tracked[key]; !seen && tup.valid {
@@ -344,7 +345,7 @@ func TestC06(t *testing.T) {
 				}
 				continue
 			}
-			mode := c.Weighted("in.mode", 12, 4, 4, 2, 1, 1) // fresh, retry of an earlier tuple, mirror of a local packet, error ping, time passes, sender sets up new keys
+			mode := c.Weighted("in.mode", 12, 4, 4, 2, 1, 1, 2) // (6 = a local connection, an error report about its destination, time, the same local packet again) fresh, retry of an earlier tuple, mirror of a local packet, error ping, time passes, sender sets up new keys
 			if afterErrPing && c.Chance("hello.after-error-ping", 1, 3) {
 				mode = 5
 			}
@@ -380,6 +381,73 @@ func TestC06(t *testing.T) {
 				c.Note("%s pass without traffic, cleaner tick", d)
 				c.Class("time-passes-and-cleaner-tick")
 				afterTime = true
+				continue
+			}
+			if mode == 6 && (len(outHist) == 0 || chains >= 2) {
+				mode = 0
+			}
+			if mode == 6 {
+				// Some router reports a problem with the destination of an earlier
+				// local packet (any router the victim has keys with may send such a
+				// report, about any router), time passes, and the application
+				// retries: the very same local packet again. Whatever the report did
+				// to the entry, it does not let a packet out that the policy keeps in.
+				chains++
+				h := outHist[c.Pick("chain.tuple", len(outHist))]
+				var reporter *c06Sender
+				for _, cand := range senders {
+					if cand.sess != nil && cand.keyed && (reporter == nil || c.Bool("chain.reporter.next")) {
+						reporter = cand
+					}
+				}
+				if reporter != nil {
+					code := uint8(core.OneOf(c, "chain.code", 1, 1, 3, 4))
+					mt := frame.RouterPing
+					var body []byte
+					if code == 1 {
+						body, _ = cbor.Marshal(map[string]any{"u": h.dst})
+					} else {
+						mt = frame.RouterCtrl
+						body, _ = cbor.Marshal(map[string]any{"d": h.dst, "t": h.proto, "p": h.rp})
+					}
+					errPingID++
+					f, err := builder.NewFrameV1(reporter.party.ID.Addr.IP, V.IP(), mt, nil, c07PingMsg(pingHdr{"i": errPingID, "t": "error", "c": code}, body), nil)
+					if err != nil {
+						c.Fatalf("frame: %v", err)
+					}
+					if err := f.Seal(reporter.sess); err != nil {
+						c.Fatalf("seal error ping: %v", err)
+					}
+					d, _ := f.FrameDataWithMargins(0, 0)
+					d = append([]byte(nil), d...)
+					f.ReturnToPool()
+					if res := vn.Inject(V, lV, d); res.Panicked {
+						c.Fatalf("error ping panicked a worker: %v", vn.Panics)
+					}
+					vn.Queue = nil
+					c.Note("error ping code=%d about %s from %s", code, h.dst, reporter.kind)
+				}
+				if d := core.OneOf(c, "chain.time", 0, 11*time.Second, 21*time.Second); d > 0 {
+					V.Rtr.VerifAgeConnStates(d)
+					if c.Bool("chain.cleaner") {
+						V.Rtr.VerifCleanConnStates()
+						for key := range tracked {
+							if parts := strings.Split(key, "|"); len(parts) == 4 && (parts[1] == "1" || parts[1] == "58") {
+								delete(tracked, key)
+							}
+						}
+					}
+				}
+				force := c06OutTuple{h.dst, h.proto, h.lp, h.rp, true}
+				key, may, tup := c06Outbound(c, vn, V, st.Router.Isolate, isFriend, friendIDs, knownID, P, tracked, &force)
+				if _, seen := tracked[key]; key != "" && !seen && tup.valid {
+					if may {
+						tracked[key] = "allowed"
+					} else {
+						tracked[key] = "prohibited"
+					}
+				}
+				c.Class("local-connection/error-report-time-retry")
 				continue
 			}
 			si := c.Pick("in.sender", len(senders))
@@ -687,7 +755,7 @@ func TestC06(t *testing.T) {
 // c06Outbound sends one local packet; it returns the connection-tracking key
 // (and whether the reference lets the packet into the mesh)
 // the router may have created for it ("" if none).
-func c06Outbound(c *core.Case, vn *vnet.Net, V *vnet.Node, isolate bool, isFriend func(netip.Addr) bool, friendIDs []*ids.Identity, knownID *ids.Identity, P *vnet.Node, tracked map[string]string) (trackedKey string, may bool, tup c06OutTuple) {
+func c06Outbound(c *core.Case, vn *vnet.Net, V *vnet.Node, isolate bool, isFriend func(netip.Addr) bool, friendIDs []*ids.Identity, knownID *ids.Identity, P *vnet.Node, tracked map[string]string, force *c06OutTuple) (trackedKey string, may bool, tup c06OutTuple) {
 	src := V.IP()
 	if c.Chance("out.src.foreign", 1, 5) {
 		src = knownID.Addr.IP
@@ -711,7 +779,17 @@ func c06Outbound(c *core.Case, vn *vnet.Net, V *vnet.Node, isolate bool, isFrien
 		dst = netip.MustParseAddr("fd00::1234") // internal range, not the API address
 	}
 	pkt := c07TunPacket(src, dst, uint8(core.OneOf(c, "out.proto", 6, 17, 58)), 40001, uint16(core.OneOf(c, "out.port", 80, 53, 0, 443)))
-	switch c.Weighted("out.version", 12, 1, 1, 1) {
+	version := c.Weighted("out.version", 12, 1, 1, 1)
+	if force != nil {
+		// the same local packet as an earlier one
+		src, dst, version = V.IP(), force.dst, 0
+		lp, rp := force.lp, force.rp
+		if force.proto != 6 && force.proto != 17 {
+			lp, rp = 40001, 80
+		}
+		pkt = c07TunPacket(src, dst, force.proto, lp, rp)
+	}
+	switch version {
 	case 1:
 		pkt[0] = 4 << 4
 	case 2:
